@@ -143,8 +143,11 @@ class YamlDocument(HierDictDocument):
         return value
 
     def _ret_bool(self, _, value):
-        if value is None or value in (True, False):
-            return value
+        if value is None:
+            return None
+        # 0 and 1 compare equal to False and True: hand over a real bool.
+        if value in (True, False) and not isinstance(value, float):
+            return bool(value)
         raise ValidationError(value)
 
     def create_in_document(self, ctx, in_string_encoding=None):
